@@ -196,6 +196,10 @@ func (d *dialer) dial(redial bool) error {
 	if !redial {
 		return err
 	}
+	if d.closed {
+		// Closed while the attempt was in flight: no further attempts.
+		return err
+	}
 	switch err {
 	case mangos.ErrClosed:
 		// Stop redialing, no further action.
